@@ -356,6 +356,14 @@ func axiosBodyArg(info *types.Info, body *ast.BlockStmt) string {
 		}
 		call := sprintfView(info, ret.Results[0])
 		if call == nil {
+			// the branch returns what a helper of the package builds: read the helper's own return
+			if c0, ok := ast.Unparen(ret.Results[0]).(*ast.CallExpr); ok && theWorld != nil {
+				if h := theWorld.Funcs[calleeOf(info, c0)]; h != nil && h.Decl.Body != nil && h.Decl.Body != body {
+					if v := axiosBodyArg(h.Pkg.TypesInfo, h.Decl.Body); v != "?" {
+						res = v
+					}
+				}
+			}
 			return true
 		}
 		tv := info.Types[call.Args[0]]
@@ -421,7 +429,22 @@ func checkFormAgreement(w *World, r *Result) {
 	iz := w.MustFunc("analysis/httpapi.(Form).IsZero")
 	ti := w.MustFunc("generator/typescript.typeIn")
 	gc := w.MustFunc("generator/typescript.generateAxiosCall")
-	a, b, c := formFields(iz, iz.Decl.Body), formFields(ti, ti.Decl.Body), formFields(gc, gc.Decl.Body)
+	// a function reads a form part itself or through the helpers of its package it calls
+	closureFields := func(fi *FuncInfo) []string {
+		set := map[string]bool{}
+		for _, cf := range calleeClosure(w, fi, 2) {
+			for _, k := range formFields(cf, cf.Decl.Body) {
+				set[k] = true
+			}
+		}
+		var out []string
+		for k := range set {
+			out = append(out, k)
+		}
+		sort.Strings(out)
+		return out
+	}
+	a, b, c := closureFields(iz), closureFields(ti), closureFields(gc)
 	want := []string{"File", "JSON", "ValueNames"}
 	r.cond(setEq(a, want), "AGR-C14f", iz.Name, "IsZero reads {"+strings.Join(a, ",")+"}", fnPos(w, iz), "a form is empty exactly when it has no file, no value and no JSON field", "Form.IsZero does not consult all of File, ValueNames and JSON: a form that only has the missing part is treated as 'no form' and its fields are never sent")
 	r.cond(setEq(b, want), "AGR-C14f", ti.Name, "signature arguments from {"+strings.Join(b, ",")+"}", fnPos(w, ti), "file, formParams and formValue arguments", "the method signature does not cover all three form parts")
